@@ -52,6 +52,8 @@ func run(r *common.Run) error {
 		switch group {
 		case "fuzz":
 			c.corpus()
+			c.paged()
+			c.sizes()
 			c.systematic()
 			c.random()
 		case "scen":
@@ -270,6 +272,7 @@ func (c *ctx) skeletons() {
 		gos = append(gos, fmt.Sprintf("%s:%d %s waits-afterwards=%v", g.File, g.Line, g.Fn, g.Joined))
 	}
 	r.Extra["goroutines_started_in_scope"] = gos
+	r.Extra["may_return_nil_with_nil_error"] = c.an.MayNil
 	r.Extra["generated_files_skipped"] = c.an.Generated
 	r.Extra["files_left_to_other_properties"] = c.an.Skipped
 }
@@ -317,6 +320,213 @@ func (c *ctx) corpus() {
 	}
 	for _, h := range corpusHelper {
 		c.helper(helperByName(h[0]), h[1], h[2], "corpus")
+	}
+}
+
+// rsmSet: a result-set-management trailer; last == "" and !empty = no trailer at all.
+func rsmSet(first, last string, empty bool) string {
+	if last == "" && !empty {
+		return ""
+	}
+	s := `<set xmlns="http://jabber.org/protocol/rsm">`
+	if first != "" {
+		s += `<first index="0">` + first + `</first>`
+	}
+	if last != "" {
+		s += `<last>` + last + `</last>`
+	} else {
+		s += `<last/>`
+	}
+	return s + `<count>9</count></set>`
+}
+
+func itemsPage(node string, jids []string, trailer string) string {
+	s := `<query xmlns="http://jabber.org/protocol/disco#items"`
+	if node != "" {
+		s += ` node="` + node + `"`
+	}
+	s += `>`
+	for _, j := range jids {
+		s += `<item jid="` + j + `" node="n` + j[:1] + `" name="x"/>`
+	}
+	return s + trailer + `</query>`
+}
+
+func pubsubPage(ids []string, trailer string) string {
+	s := `<pubsub xmlns="http://jabber.org/protocol/pubsub"><items node="n">`
+	for _, id := range ids {
+		s += `<item id="` + id + `"><conference xmlns="urn:xmpp:bookmarks:1" name="R"/></item>`
+	}
+	return s + `</items>` + trailer + `</pubsub>`
+}
+
+// paged: multi-page results (RSM) for every iterator that can turn pages, with a peer that
+// answers every request: 2–3 pages, last page with an empty <last/>, without a trailer, and a
+// peer that always announces another page; every single-step mutation of the second page.
+func (c *ctx) paged() {
+	c.r.Mark("case paged")
+	type gen func(k int, trailer string) string
+	its := []struct {
+		helper string
+		page   gen
+	}{
+		{"disco.FetchItems", func(k int, t string) string {
+			return itemsPage("", []string{fmt.Sprintf("a%d.example.net", k), fmt.Sprintf("b%d.example.net", k)}, t)
+		}},
+		{"disco.WalkItem", func(k int, t string) string {
+			return itemsPage("", []string{fmt.Sprintf("a%d.example.net", k)}, t)
+		}},
+		{"commands.Fetch", func(k int, t string) string {
+			return itemsPage("http://jabber.org/protocol/commands", []string{fmt.Sprintf("c%d.example.net", k)}, t)
+		}},
+		{"pubsub.Fetch", func(k int, t string) string {
+			return pubsubPage([]string{fmt.Sprintf("i%d", k), fmt.Sprintf("j%d", k)}, t)
+		}},
+		{"bookmarks.Fetch", func(k int, t string) string {
+			return pubsubPage([]string{fmt.Sprintf("room%d@conf.example", k)}, t)
+		}},
+	}
+	for _, it := range its {
+		h := helperByName(it.helper)
+		more := func(k int) string { return it.page(k, rsmSet(fmt.Sprintf("f%d", k), fmt.Sprintf("l%d", k), false)) }
+		sets := [][]string{
+			{more(1), it.page(2, "")},
+			{more(1), more(2), it.page(3, "")},
+			{more(1), it.page(2, rsmSet("f2", "", true))},
+			{more(1), more(2), it.page(3, rsmSet("", "", true))},
+			{more(1)}, // always another page: cut off by the peer's item-not-found
+			{more(1), `<query xmlns="http://jabber.org/protocol/disco#items"/>`},
+			{more(1), ``},
+			{more(1), ` ` + it.page(2, "")},
+		}
+		for _, pages := range sets {
+			c.helperp(h, "result", pages, "paged")
+		}
+		single(parse(it.page(2, rsmSet("f2", "l2", false))), nil, func(m *node, class string) {
+			c.helperp(h, "result", []string{more(1), m.String(), it.page(3, "")}, "paged-single-"+class)
+		})
+	}
+	// ad-hoc command conversations: executing -> next / prev / complete / cancel, an error or
+	// garbage at every step
+	cmd := func(status, extra string) string {
+		return `<command xmlns="http://jabber.org/protocol/commands" sessionid="s1" node="list" status="` + status + `"` + extra + `><actions execute="next"><prev/><next/><complete/></actions><x xmlns="jabber:x:data" type="form"><field var="a"><value>v</value></field></x></command>`
+	}
+	ex, done, canc := cmd("executing", ""), cmd("completed", ""), cmd("canceled", "")
+	convs := [][]string{
+		{ex, ex, done}, {ex, done}, {ex, canc}, {done}, {canc}, {ex}, {ex, errorPageMark + errPayload}, {errorPageMark + errPayload},
+		{ex, ex, errorPageMark + errPayload}, {ex, `text`}, {ex, ``}, {ex, cmd("", "")}, {ex, cmd("bogus", "")},
+		{ex, `<command xmlns="http://jabber.org/protocol/commands" status="canceled"/>`},
+		{ex, `<command xmlns="http://jabber.org/protocol/commands" status="executing"/>`, canc},
+		{cmd("executing", ` xml:lang="en"`), ex, ex, ex, ex, ex},
+	}
+	for _, h := range helpers {
+		if !strings.HasPrefix(h.name, "commands.ForEach.") && h.name != "commands.ExecuteChain" {
+			continue
+		}
+		for _, conv := range convs {
+			c.helperp(h, "result", conv, "command-conversation")
+		}
+		single(parse(canc), nil, func(m *node, class string) {
+			c.helperp(h, "result", []string{ex, m.String()}, "command-single-"+class)
+		})
+	}
+	// history: the fin reply carries the paging trailer
+	hf := helperByName("history.Fetch")
+	for _, fin := range []string{
+		`<fin xmlns="urn:xmpp:mam:2">` + rsmSet("a", "b", false) + `</fin>`,
+		`<fin xmlns="urn:xmpp:mam:2" complete="true">` + rsmSet("", "", true) + `</fin>`,
+	} {
+		c.helperp(hf, "result", []string{fin, fin}, "paged")
+	}
+}
+
+// sizeList: peer-input sizes that straddle the buffers and limits of the code (4 KiB bufio,
+// 64 KiB block size / uint16, the 256 KiB ibb read buffer, 1 MiB).
+func (c *ctx) sizeList() []int {
+	if c.r.Quick() {
+		return []int{0, 1, 4097, 65535, 65536, 65537, 98304, 262145, 1 << 20}
+	}
+	return []int{0, 1, 4095, 4096, 4097, 65534, 65535, 65536, 65537, 98304, 196608, 262143, 262144, 262145, 1 << 20}
+}
+
+// sized returns copies of the tree in which one peer-controlled datum has the given size: the
+// first text node (character data of that size; created in the innermost first element if
+// the template has none) and the first attribute of the payload element.
+func sized(root *node, n int) []*node {
+	var out []*node
+	blob := strings.Repeat("A", n)
+	// text
+	t := root.clone()
+	var setText func(e *node) bool
+	setText = func(e *node) bool {
+		for _, ch := range e.children {
+			if ch.kind == nText {
+				ch.text = blob
+				return true
+			}
+		}
+		for _, ch := range e.children {
+			if ch.kind == nElem && setText(ch) {
+				return true
+			}
+		}
+		return false
+	}
+	if !setText(t) {
+		es := t.elems()
+		deepest := es[len(es)-1]
+		deepest.children = append(deepest.children, &node{kind: nText, text: blob})
+	}
+	out = append(out, t)
+	// attribute of the payload element (second element of the tree, if any)
+	a := root.clone()
+	if es := a.elems(); len(es) > 1 {
+		e := es[1]
+		if len(e.attrs) > 0 {
+			e.attrs[0][1] = blob
+		} else {
+			e.attrs = append(e.attrs, [2]string{"id", blob})
+		}
+		out = append(out, a)
+	}
+	return out
+}
+
+// sizes: payload / attribute / text size as a generator dimension for every handler and every
+// helper, and for data packets of an open ibb stream.
+func (c *ctx) sizes() {
+	c.r.Mark("case sizes")
+	for _, seqT := range stanzaTemplates {
+		for i := range seqT {
+			root := parse(seqT[i])
+			for _, n := range c.sizeList() {
+				for _, m := range sized(root, n) {
+					parts := make([]string, len(seqT))
+					for j := range seqT {
+						parts[j] = parse(seqT[j]).String()
+					}
+					parts[i] = m.String()
+					c.serve(strings.Join(parts, ""), "size")
+				}
+			}
+		}
+	}
+	for _, h := range helpers {
+		for _, t := range h.templates {
+			if t == "" {
+				continue
+			}
+			root := parse("<w xmlns=\"jabber:client\">" + t + "</w>")
+			for _, n := range c.sizeList() {
+				for _, m := range sized(root, n) {
+					var b strings.Builder
+					for _, ch := range m.children {
+						ch.write(&b, "jabber:client")
+					}
+					c.helper(h, "result", b.String(), "size")
+				}
+			}
+		}
 	}
 }
 
